@@ -10,7 +10,7 @@ from ..gen_xml import xml_json
 
 MAPS = [None, "p.Quote => blockquote > p:fresh\ncomment-reference => sup", "r.Strong => strong\nb => b"]
 REWRITES = ["strict", "rename_prefixes", "default_ns", "nested_default_ns", "declaration", "encoding", "bom", "cdata", "charrefs", "comments",
-            "pis", "whitespace", "zip_order", "compression", "rename_parts", "noise"]
+            "pis", "whitespace", "zip_order", "compression", "rename_parts", "noise", "stale_parts"]
 
 
 def insert_noise(rng, nodes, depth=0):
